@@ -238,3 +238,42 @@ def run_property(pid, tier, rules, explanation, assumptions, design_ref=""):
     nob = len(ctx.obligations)
     print(f"{pid} {tier}: {nob} obligations over {sum(c['bodies'] for c in ctx.configs_used.values())} bodies in {len(ctx.configs_used)} configuration(s), {nob - len(ctx.violations)} hold, {len(listed)} known finding(s), {len(unlisted)} violation(s); {wall:.1f}s")
     return 1 if unlisted else 0
+
+
+def witness_results(repo=None):
+    """run the compile-fail witness crate against the repository (cached per source digest);
+    returns {witness name: {'fail': bool|None, 'twin': bool|None}}"""
+    import re
+    repo = repo or REPO
+    key, _ = repo_digest(repo)
+    wdig = hashlib.sha256(open(os.path.join(VERIF, "witness", "src", "lib.rs"), "rb").read()).hexdigest()[:12]
+    cf = os.path.join(CACHE, key, f"witness-{wdig}.json")
+    if os.path.isfile(cf):
+        return json.load(open(cf))
+    os.makedirs(os.path.join(CACHE, key), exist_ok=True)
+    r = subprocess.run([os.path.join(VERIF, "bin", "run-witness"), repo], stdout=subprocess.PIPE, stderr=subprocess.STDOUT, text=True)
+    res = {}
+    for line in r.stdout.splitlines():
+        m = re.match(r"^test src/lib.rs - (\w+) \(line \d+\)( - compile fail)? \.\.\. (\w+)", line)
+        if m:
+            d = res.setdefault(m.group(1), {"fail": None, "twin": None})
+            if m.group(2):
+                d["fail"] = (m.group(3) == "ok") if d["fail"] in (None, True) else False
+            else:
+                d["twin"] = (m.group(3) == "ok") if d["twin"] in (None, True) else False
+    if not res:
+        raise FactError("witness crate did not run:\n" + r.stdout[-1500:])
+    json.dump(res, open(cf, "w"))
+    return res
+
+
+def witness_obligations(ctx, rule, names):
+    """record the witnesses `names` as obligations of `rule`"""
+    res = witness_results()
+    for n, what in names:
+        w = res.get(n)
+        if w is None:
+            ctx.ob(rule, f"witness:{n}", False, "witness/src/lib.rs", f"witness {n} did not run (fail closed)")
+            continue
+        ok = (w["fail"] is not False) and (w["twin"] is not False) and (w["fail"] is not None or w["twin"] is not None)
+        ctx.ob(rule, f"witness:{n}", ok, "witness/src/lib.rs", f"{what}: compile-fail witness {'rejected by rustc with the expected error code' if w['fail'] else ('n/a' if w['fail'] is None else 'COMPILED')}, compiling twin {'ok' if w['twin'] else ('n/a' if w['twin'] is None else 'FAILED')}")
